@@ -425,7 +425,7 @@ UNUSUAL = [
     ['x = {*a, 1}'], ['x = h2(1, *a, k=2, **{})'], ['(x, (y, *z)) = (1, (2, 3))'],
     # walrus
     ['if (n_ := len(a)) > 1:', '  x = n_'], ['x = [n_ := 1, n_ ** 2]'], ['x = (n_ := 5) + n_'],
-    ['x = [(m_ := q) for q in range(2)]'], ['x = h1(n_ := 3)'], ['x = a[(n_ := 0)]'],
+    ['x = [(m_ := q) for q in range(2)]'], ['x = a[(n_ := 0)]'],
     ['fuel_90 = 0', 'while (n_ := fuel_90) < 2:', '  fuel_90 += 1'],
     # chained comparisons without calls
     ['x = y < z < 3'], ['x = 0 < y <= z != 4'], ['x = y is not None is not z'], ['x = y in a not in [a]'],
@@ -439,7 +439,7 @@ UNUSUAL = [
     ['def g_94(p: int = -1, *q: int, r: "str" = "s", **s: int) -> int:', '  return p', 'x = g_94()'],
     ['@deco(-1, k=(-2, 1e-3))', 'def g_95(p):', '  """doc -1"""', '  return p', 'x = g_95(1)'],
     # assorted shapes
-    ['x = ...'], ['x = None'], ['x = y = z'], ['x: int = 1'], ['x_ann: int'], ['a[0] += 1'], ['x = Box()', 'x.v += -1'],
+    ['x = ...'], ['x = None'], ['x = y = z'], ['x_ann2: int = 1'], ['x_ann: int'], ['a[0] += 1'], ['x = Box()', 'x.v += -1'],
     ['x = y @ z if 0 else 0'], ['x = y // z if z else y % 3'], ['x = (y, z)[y < z]'], ['x = y if c() else z'],
     ['x = {q: -q for q in range(2)}'], ['x = {-q for q in range(2)}'], ['x = list(-q for q in range(2) if q if -q)'],
     ['x = [(p, q) for p in range(2) for q in range(p)]'], ['assert y is not None, f"m{y}"'],
@@ -452,10 +452,55 @@ UNUSUAL = [
     ['x = b"" or None or ...'], ['x = 1_0.0_1e-0_1'],
 ]
 
+# Store positions: every place the grammar allows a target, with starred elements, nested tuple / list unpacking,
+# attribute and subscript targets; loops carry break / continue and state variables so that control-flow conversion
+# (for_stmt's `iterates = itr` expansion, if_stmt / while_stmt state) has to rebuild the targets.
+STORE_SHAPES = [
+    # for-loop targets
+    ['for hd_, *tl_ in [(1, 2, 3), (4, 5)]:', '  if c():', '    break', '  x = x + hd_ + len(tl_)'],
+    ['for (p_, *q_, r_), tag_ in [((1, 2, 3), 4)]:', '  if c():', '    continue', '  y = y + p_ + r_ + tag_'],
+    ['for [p_, *q_] in [[1, 2]]:', '  z = z + p_'],
+    ['for *q_, r_ in [(1, 2)]:', '  if c():', '    break', '  z = z + r_'],
+    ['for *q_, in [(1, 2)]:', '  z = z + len(q_)'],
+    ['for p_, (q_, (r_, *s_)) in [(1, (2, (3, 4)))]:', '  if r_:', '    continue', '  x = p_'],
+    ['bx_ = Box2()', 'for bx_.v in range(2):', '  if c():', '    break', '  x = x + bx_.v'],
+    ['for a[0] in range(2):', '  if c():', '    continue', '  x = x + a[0]'],
+    ['bx_ = Box2()', 'for bx_.v, *a[0:1] in [(1, 2)]:', '  y = y + bx_.v'],
+    ['bx_ = Box2()', 'for (bx_.v, a[0]), *q_ in [((1, 2), 3)]:', '  if c():', '    break', '  y = y + len(q_)'],
+    ['bx_ = Box2()', 'bx_.n = Box2()', 'for bx_.n.v, a[-1] in [(1, 2)]:', '  z = bx_.n.v'],
+    ['for i_95, *j_95 in [(1, 2)]:', '  for k_95, *j_95 in [(3, 4)]:', '    if c():', '      break', '    x = x + k_95', '  y = y + i_95'],
+    ['def g_96(rows):', '  for hd_, *tl_ in rows:', '    if hd_:', '      return tl_', '  return None', 'x = g_96([(1, 2)])'],
+    ['fuel_92 = 0', 'while fuel_92 < 2:', '  fuel_92 += 1', '  x, *y_s = a', '  if c():', '    break', '  z = z + x'],
+    ['fuel_93 = 0', 'while fuel_93 < 2:', '  fuel_93 += 1', '  (p_, *q_), r_ = (1, 2), 3', '  if c():', '    continue', '  z = z + p_ + r_'],
+    # assignment targets
+    ['p_, (q_, *r_), s_ = 1, (2, 3), 4'], ['[p_, *q_] = a'], ['*p_, = a'], ['bx_ = Box2()', 'p_, *bx_.v = a'],
+    ['a[0], *a[1:] = a'], ['p_ = q_, *r_ = a'], ['bx_ = Box2()', 'bx_.v = bx_.w = a[0] = 1'],
+    ['bx_ = Box2()', '(bx_.v, [a[0], *q_]) = (1, [2, 3])'], ['if c():', '  p_, *q_ = a', 'else:', '  p_, q_ = 1, []', 'x = p_'],
+    ['bx_ = Box2()', 'bx_.v = 0', 'bx_.v += 1', 'a[0] += bx_.v', 'a[0:1] += [1]'], ['bx_ = Box2()', 'bx_.v: int = 1', 'a[0]: int = 2'],
+    # with-as targets
+    ['with CM(t, (1, 2)) as (p_, *q_):', '  x = p_'], ['bx_ = Box2()', 'with CM(t, 1) as bx_.v:', '  x = bx_.v'],
+    ['with CM(t, [1, 2]) as [p_, *q_], CM(t, 2) as a[0]:', '  if c():', '    x = p_'],
+    ['with CM(t, ((1, 2), 3)) as ((p_, *q_), r_):', '  x = r_'],
+    # comprehension targets
+    ['x = [p_ for p_, *q_ in [(1, 2)]]'], ['x = {p_: q_ for (p_, *q_), r_ in [((1, 2), 3)]}'],
+    ['bx_ = Box2()', 'x = [1 for bx_.v in range(2)]'], ['x = [1 for a[0] in range(1)]'],
+    ['x = list(r_ for *q_, r_ in [(1, 2)] if r_)'], ['x = {r_ for [*q_, r_] in [[1, 2]] for s_, *u_ in [(r_, 1)]}'],
+    # delete targets
+    ['bx_ = Box2()', 'bx_.v = 1', 'del bx_.v'], ['del a[0:0]'], ['p_ = q_ = 1', 'del (p_, [q_])'], ['p_ = 1', 'del p_, a[5:]'],
+]
+
+# Known findings of the pinned tree that make the *transformed tree* violate a C17 clause; each is routed through its
+# witness (stable kind:sig) and its trigger is kept out of the default space while the witness fails.
+#   (kind, sig, statement lines)
+KNOWN_TREE_FINDINGS = [
+    ('known-walrus-arg', 'namedexpr-target-wrapped-in-ld', ['x = h1(n_ := 3)']),
+    ('known-annassign-nonlocal', 'annotated-state-variable-declared-nonlocal', ['if c():', '  x: int = 1']),
+]
+
 _CLAUSE = re.compile(r'\s*(else|elif|except|finally)\b')
 
 
-def splice_unusual(src, rnd, count):
+def splice_unusual(src, rnd, count, pool=None):
   """Insert `count` unusual statements into the body of f at random positions (same indentation as the
   following line); insertions that make the module uncompilable are dropped."""
   lines = src.split('\n')
@@ -467,7 +512,7 @@ def splice_unusual(src, rnd, count):
     cands = [i for i in range(start + 1, len(lines)) if lines[i].strip() and not _CLAUSE.match(lines[i])]
     i = rnd.choice(cands)
     ind = lines[i][:len(lines[i]) - len(lines[i].lstrip())]
-    snip = rnd.choice(UNUSUAL)
+    snip = rnd.choice(pool or UNUSUAL)
     new = lines[:i] + [ind + l for l in snip] + lines[i:]
     try:
       compile('\n'.join(new), '<splice>', 'exec')
